@@ -37,7 +37,15 @@ type DataValue struct {
 }
 
 func (d *DataValue) Decode(b []byte) (int, error) {
+	return d.decodeNested(b, 0)
+}
+
+func (d *DataValue) decodeNested(b []byte, level int) (int, error) {
+	if level >= MaxNestingLevel {
+		return 0, StatusBadEncodingLimitsExceeded
+	}
 	buf := NewBuffer(b)
+	buf.level = level + 1
 	d.EncodingMask = buf.ReadByte()
 	d.Value = new(Variant)
 	if d.Has(DataValueValue) {
